@@ -195,6 +195,17 @@ def build(backend, tier):
     }
     for k, q in recv.items():
         add(f"receiver:{k}", q, mmd + m0, tw)
+    # wrong arity / wrong call style stay errors on those receivers
+    add("receiver:wrong-arity-index", f"ds.Select(lambda e: {S}[0].scaled())", mmd + m0, {}, expect="refuse")
+    add("receiver:wrong-arity+-index", f"ds.Select(lambda e: {S}[0].scaled(1, 2))", mmd + m0, {}, expect="refuse")
+    add("receiver:wrong-arity-parts-index", per.format("j.parts()[0].twicept(1)"), mmd + m0, {}, expect="refuse")
+    add("receiver:wrong-arity-member-result", per.format("j.link().scaled(1, 2)") if a.has_nonnull else per.format("j.parts()[0].scaled(1, 2)"), mmd + m0, {}, expect="refuse")
+    add("receiver:function-as-method-index", f"ds.Select(lambda e: {S}[0].inj(1, 2))", md, {}, expect="refuse")
+    add("receiver:function-as-method-parts", per.format("j.parts()[0].one(1)"), md, {}, expect="refuse")
+    if backend == "atlas":
+        add("receiver:builtin-wrong-arity-index", f"ds.Select(lambda e: {S}[0].getAttributeFloat())", [], {}, expect="refuse")
+        add("receiver:builtin-wrong-arity+-index", f"ds.Select(lambda e: {S}[0].getAttributeFloat('a', 'b'))", [], {}, expect="refuse")
+        add("receiver:builtin-function-as-method", f"ds.Select(lambda e: {S}[0].DeltaR(1.0, 2.0, 3.0, 4.0))", [], {}, expect="refuse")
     if backend == "atlas":
         add("receiver:builtin-index", f"ds.Select(lambda e: {S}[0].getAttributeFloat('w'))", [], {})
         add("receiver:builtin-first-then-select", f"ds.Select(lambda e: {S}.First()).Select(lambda j: j.getAttributeFloat('w'))", [], {})
